@@ -213,13 +213,16 @@ def model_prog(prog, order=None):
     return out
 
 
-def run_inference(prog, funcs, order=None):
+def run_inference(prog, funcs, order=None, as_generators=False):
     """real SymbolKindFinder on the program (statements in the given order) -> canonical result"""
     import contextlib
     import io
     from dagrt.data import SymbolKindFinder
     names, groups = grouped(prog, order)
     phases = [[build_stmt(prog[i][1], i) for i in g] for g in groups]
+    if as_generators:
+        # one-shot iterables, as the Fortran generator passes them (get_statements_in_ast is a generator)
+        phases = [(s for s in ph) for ph in phases]
     freg = make_registry(funcs)
     buf = io.StringIO()
     # "a unification failed and inference went on all the same" (SymbolKindTable.set swallows the failure) is
